@@ -106,6 +106,23 @@ def run(tier, v):
         lib["nc_tls" + suffix] = tcp_conn(20 + k, two(Hn, 35 + k), port=8443 if alt else 443, **kw)
         lib["nc_h1" + suffix] = tcp_conn(30 + k, two(Rn, 20 + k), port=8080 if alt else 80, resp=Sn, **kw)
         lib["nc_tcp" + suffix] = tcp_conn(40 + k, [b""], port=8080 if alt else 80, syn_opts=True, **kw)
+    # sequels: a connection that has run its course, followed by a NEW connection on the same 4-tuple (port reuse) -- "no connection can
+    # disable analysis of the connections that follow it".  The predecessor of the TLS pair is a TLS 1.2 handshake whose second client
+    # flight carries three records in one segment; the HTTP predecessor is a complete exchange.
+    sq = dict(cip=(10, 71, 0, 1), sip=(10, 60, 0, 20), cp=41000)
+    Hs1, Hs2 = c10.hello("first.example"), c10.hello("sequel.example")
+    flight2 = bytes([0x16, 3, 3, 0, 37, 16, 0, 0, 33, 32]) + bytes(range(32)) + bytes([0x14, 3, 3, 0, 1, 1]) + bytes([0x16, 3, 3, 0, 40]) + bytes([0xab] * 40)
+    srvflight = bytes([0x16, 3, 3, 0, 42, 2, 0, 0, 38, 3, 3]) + bytes(range(32)) + bytes([0, 0xc0, 0x2f, 0])
+    t1 = tcp_conn(50, [Hs1, flight2], port=443, resp=srvflight, **sq)
+    # order within the predecessor: hello, server flight, client second flight
+    t1["frames"] = t1["frames"][:3] + [t1["frames"][4], t1["frames"][3]]
+    lib["sq_tls_first"] = t1
+    lib["sq_tls_sequel"] = tcp_conn(51, two(Hs2, 50), port=443, **sq)
+    Rq1 = b"GET /first HTTP/1.1\r\nHost: first.example\r\nUser-Agent: ua-first\r\n\r\n"
+    Rq2 = b"GET /sequel HTTP/1.1\r\nHost: sequel.example\r\nUser-Agent: ua-sequel\r\nAccept: */*\r\n\r\n"
+    lib["sq_h1_first"] = tcp_conn(52, [Rq1], port=80, resp=b"HTTP/1.1 200 OK\r\nServer: srv-first\r\n\r\nok", **sq)
+    lib["sq_h1_sequel"] = tcp_conn(53, two(Rq2, 25), port=80, resp=b"HTTP/1.1 404 Not Found\r\nServer: srv-sequel\r\n\r\nno", **sq)
+    sequels = {"tls": [("sq_tls_first", "sq_tls_sequel")], "http": [("sq_h1_first", "sq_h1_sequel")], "uni": [("sq_tls_first", "sq_tls_sequel"), ("sq_h1_first", "sq_h1_sequel")]}
     for c in lib.values():
         # drop the empty data segment of plain handshakes
         c["frames"] = [f for f in c["frames"] if not (len(f) == 54 and f[47] == 0x18)]
@@ -149,6 +166,13 @@ def run(tier, v):
                 lines.append({"id": "I%d" % i, "crate": crate, "frames": frames, "matcher": True, "cfg": {}})
             for c in cs:
                 alone_needed.add((crate, c))
+    for crate, pairs in sequels.items():
+        for (a, b) in pairs:
+            i = len(lines)
+            meta[i] = (crate, (a, b), [1] * len(lib[a]["frames"]) + [2] * len(lib[b]["frames"]))
+            lines.append({"id": "I%d" % i, "crate": crate, "frames": [f.hex() for f in lib[a]["frames"] + lib[b]["frames"]], "matcher": True, "cfg": {}})
+            alone_needed.add((crate, a))
+            alone_needed.add((crate, b))
     for (crate, c) in sorted(alone_needed):
         lines.append({"id": "A|%s|%s" % (crate, c), "crate": crate, "frames": [f.hex() for f in lib[c]["frames"]], "matcher": True, "cfg": {}})
     req = os.path.join(wd, "ana.req")
@@ -173,11 +197,20 @@ def run(tier, v):
                 continue
             per = attribute(crate, inter[i], [lib[c] for c in cs])
             n_nontriv += any(per)
+            if cs[0].startswith("sq_"):
+                # predecessor and sequel share the 4-tuple: everything reported for the tuple, in order = predecessor alone, then sequel alone
+                one = attribute(crate, inter[i], [lib[cs[0]]])[0]
+                f.write(json.dumps({"id": i, "conns": [{"inter": one, "alone": alone[(crate, cs[0])] + alone[(crate, cs[1])]}]}) + "\n")
+                continue
             f.write(json.dumps({"id": i, "conns": [{"inter": per[k], "alone": alone[(crate, c)]} for k, c in enumerate(cs)]}) + "\n")
     r2 = vlib.tlc("TV_C07", pid=PID, workers=8, env={"TRACE": trace}, timeout=1800, heap="10g")
     for b in r2.lines.get("BAD", []):
         crate, cs, sc = meta[b["id"]]
         per = attribute(crate, inter[b["id"]], [lib[c] for c in cs])
+        if cs[0].startswith("sq_"):
+            v.violation({"analyzer": crate, "connection_followed_by_a_new_one_on_the_same_4_tuple": cs, "reported_for_the_tuple": attribute(crate, inter[b["id"]], [lib[cs[0]]])[0],
+                         "each_alone": [alone[(crate, cs[0])], alone[(crate, cs[1])]], "frames": [f.hex() for f in lib[cs[0]]["frames"] + lib[cs[1]]["frames"]]})
+            continue
         v.violation({"analyzer": crate, "connections": cs, "schedule": sc, "connections_whose_results_differ": [cs[k - 1] for k in b["conns"]],
                      "interleaved": {cs[k - 1]: per[k - 1] for k in b["conns"]}, "alone": {cs[k - 1]: alone[(crate, cs[k - 1])] for k in b["conns"]},
                      "frames": [lib[cs[c - 1]]["ip"] for c in sc]})
